@@ -252,7 +252,8 @@ class Script:
         return "\n".join(self.lines + ["E"]) + "\n"
 
 
-DETOURS = ["count-fail", "count-partial-fail", "asm-fail", "count-ok", "count-fail", "other-instance", "asm-ok", "count-partial-fail", "chunk-toggle", "debug-toggle", "count-fail"]
+DETOURS = ["count-fail", "count-partial-fail", "asm-fail", "count-ok", "count-fail", "other-instance", "asm-ok", "count-partial-fail", "chunk-toggle", "debug-toggle", "count-fail",
+           "count-null"]
 
 
 def detour(sc, i, kind, L, rnd):
@@ -276,6 +277,11 @@ def detour(sc, i, kind, L, rnd):
     elif kind == "asm-ok":
         keys = [ok[1], ok[3]]
         sc.asm(i, keys, [L.text[k] for k in keys])
+    elif kind == "count-null":
+        keys = [ok[0], ok[1]]
+        sc.lines.append("N %d %d z t%d %s" % (i, rnd.choice([0, 1, 5, 16]), len(sc.lines), hx("\n".join(L.text[k] for k in keys))))
+        sc.meta.append({"prog": list(keys)})
+        st["off"] = None
     elif kind == "other-instance":
         j = 4
         sc.create(j, "ext", 64)
